@@ -700,8 +700,14 @@ class Lemmas:
         FM = "framed_map::FramedMap"
         allowed_v = {FM + "::set", FM + "::pop_frame"}
         allowed_f = {FM + "::push_frame", FM + "::pop_frame"}
-        wv = set(x[0].name.split("::{closure")[0] for x in P.field_writers(FM, "values"))
-        wf = set(x[0].name.split("::{closure")[0] for x in P.field_writers(FM, "frame_stack"))
+        # swap_vars exchanges two whole maps (mem::swap of the two fields): each keeps its own marks <= len; pinned by the swap rules
+        SW = "eval_context::EvalContext::swap_vars"
+        wv = set(x[0].name.split("::{closure")[0] for x in P.field_writers(FM, "values") if not (x[3] == "mem_whole" and x[0].name == SW))
+        wf = set(x[0].name.split("::{closure")[0] for x in P.field_writers(FM, "frame_stack") if not (x[3] == "mem_whole" and x[0].name == SW))
+        sw = P.body(SW)
+        if sw is not None:
+            cs = canon_calls(P, sw)
+            ok &= self._ob("FRAMES", "swap_vars-exchanges-two-whole-maps", cs == [("mem::swap", ["self.vars", "self.alt_vars"])], str(cs), "swap_vars does %s" % cs)
         ok &= self._ob("FRAMES", "who-writes-values", wv <= allowed_v, str(sorted(wv)), "FramedMap.values mutated in %s" % sorted(wv - allowed_v))
         ok &= self._ob("FRAMES", "who-writes-frame_stack", wf <= allowed_f, str(sorted(wf)), "FramedMap.frame_stack mutated in %s" % sorted(wf - allowed_f))
         pf = P.body(FM + "::push_frame")
